@@ -29,13 +29,14 @@ func main() {
 		only := fs.Int("only", -1, "")
 		out := fs.String("out", "", "")
 		scratch := fs.String("scratch", "", "")
+		sub := fs.Int("sub", 0, "")
 		fs.Parse(os.Args[2:])
 		p := fw.Get(*prop)
 		if p == nil {
 			fmt.Fprintln(os.Stderr, "unknown property", *prop)
 			os.Exit(2)
 		}
-		os.Exit(fw.RunChild(p, *tier, *seed, *first, *stride, *n, *only, *out, *scratch))
+		os.Exit(fw.RunChild(p, *tier, *seed, *first, *stride, *n, *only, *out, *scratch, *sub))
 	case "drive":
 		fs := flag.NewFlagSet("drive", flag.ExitOnError)
 		scratch := fs.String("scratch", "", "")
